@@ -69,12 +69,29 @@ pub fn load_known() -> Vec<Known> {
 	out
 }
 
-fn key_matches(pattern: &str, key: &str) -> bool {
-	if let Some(p) = pattern.strip_suffix('*') {
-		key.starts_with(p)
-	} else {
-		pattern == key
+/// Glob match: `*` matches any (possibly empty) substring.
+pub fn key_matches(pattern: &str, key: &str) -> bool {
+	let parts: Vec<&str> = pattern.split('*').collect();
+	if parts.len() == 1 {
+		return pattern == key;
 	}
+	let mut pos = 0usize;
+	for (i, p) in parts.iter().enumerate() {
+		if i == 0 {
+			if !key.starts_with(p) {
+				return false;
+			}
+			pos = p.len();
+		} else if i == parts.len() - 1 {
+			return key.len() >= pos + p.len() && key.ends_with(p);
+		} else {
+			match key[pos..].find(p) {
+				Some(j) => pos += j + p.len(),
+				None => return false,
+			}
+		}
+	}
+	true
 }
 
 impl Report {
